@@ -115,6 +115,29 @@ const OFFENDERS: &[(&str, &str)] = &[
     ("parameter name repeated in a called function value", "g_ := fn (a_, \u{1}a_) {\n}\n\u{2}g_(1, 2)\n"),
     ("parameter name repeated inside a pattern of a called function value", "g_ := fn (a_, [b_, \u{1}a_]) {\n}\n\u{2}g_(1, [2, 3])\n"),
     ("name repeated in a list pattern", "[a_, \u{1}a_] := [1, 2]\n"),
+    ("name repeated inside the list pattern of one parameter", "fn f_([a_, \u{1}a_]) {\n}\n"),
+    ("name repeated inside the object pattern of one parameter", "fn f_({k_, \"j\": \u{1}k_}) {\n}\n"),
+    ("name repeated in a nested pattern of the second parameter", "fn f_(z_, [a_, [b_, \u{1}a_]]) {\n}\n"),
+    ("name used three times inside one parameter pattern", "fn f_([a_, \u{1}a_, a_]) {\n}\n"),
+    ("name repeated across two parameter patterns", "fn f_([a_, b_], {\"k\": \u{1}a_}) {\n}\n"),
+    ("name repeated by the collector of a parameter pattern", "fn f_([a_, ..\u{1}a_]) {\n}\n"),
+    ("two different names repeated inside one parameter pattern", "fn f_([a_, b_, \u{1}b_, a_]) {\n}\n"),
+    ("name repeated inside a pattern of a called function value with one parameter", "g_ := fn ([a_, \u{1}a_]) {\n}\n\u{2}g_([1, 2])\n"),
+    ("negative index in an assignment target", "w_ := [1]\nw_[\u{1}-1] = 2\n"),
+    ("negative index in an op-assignment target", "w_ := [1]\nw_[\u{1}0 - 1] += 2\n"),
+    ("string index in a list assignment target", "w_ := [1]\nw_[\u{1}\"a\"] = 2\n"),
+    ("integer key in an object assignment target", "w_ := {\"a\": 1}\nw_[\u{1}1] = 2\n"),
+    ("null key in an object op-assignment target", "w_ := {\"a\": 1}\nw_[\u{1}null] += 2\n"),
+    ("negative index in a nested assignment target", "w_ := [[1]]\nw_[0][\u{1}-1] = 2\n"),
+    ("negative index of a target inside a pattern", "w_ := [1]\n[w_[\u{1}-1]] = [2]\n"),
+    ("negative index of a loop target", "w_ := [1]\nfor w_[\u{1}-1] in [2] {\n}\n"),
+    ("negative index in an assignment target inside a function", "w_ := [1]\nfn set_(i) {\nw_[\u{1}i] = 2\n}\n\u{2}set_(-1)\n"),
+    ("negative start bound in a range assignment target", "w_ := [1, 2]\nw_[\u{1}-1:1] = [2]\n"),
+    ("string end bound in a range assignment target", "w_ := [1, 2]\nw_[0:\u{1}\"a\"] = [2]\n"),
+    ("failing modulo assignment", "v_ := 5\nv_ \u{1}%= 0\n"),
+    ("failing modulo assignment before a line break", "v_ := 5\nv_ \u{1}%=\n0\n"),
+    ("failing division assignment on an element", "w_ := [5]\nw_[0] \u{1}/= 0\n"),
+    ("failing modulo assignment of a string", "v_ := \"s\"\nv_ \u{1}%= 2\n"),
     ("break outside a loop", "if true {\n\u{1}break\n}\n"),
     ("continue outside a loop", "\u{1}continue\n"),
     ("return outside a function", "{\n\u{1}return 1\n}\n"),
@@ -632,6 +655,26 @@ impl Check for C18 {
                             "position",
                             format!("{}: {} is reported at {}:{}, the generator put the token at {}:{} (characters, 1-based): {:?}", what, if k == 0 { "the diagnostic".to_string() } else { format!("stack-trace line {}", k) }, g.0, g.1, w.0, w.1, o.msg.lines().next().unwrap_or("")),
                         );
+                    }
+                }
+                // a position cited inside the message (`... at [L:C]`) is the true position of an
+                // earlier occurrence of the name the message quotes
+                let first = o.msg.lines().next().unwrap_or("");
+                if let Some(i) = first.find(" at [") {
+                    let cited = &first[i + 5..];
+                    let quoted: Vec<&str> = first[..i].split('\'').collect();
+                    // the last quoted text before the citation
+                    if let (Some(end), true) = (cited.find(']'), quoted.len() >= 3) {
+                        let name = quoted[quoted.len() - 2];
+                        if let Some((l, col)) = cited[..end].split_once(':') {
+                            if let (Ok(l), Ok(col)) = (l.parse::<u32>(), col.parse::<u32>()) {
+                                let ok = crate::layout::pos_to_off(&c.src, (l, col)).map(|off| c.src[off..].starts_with(name)).unwrap_or(false);
+                                let before = got.first().map(|g| (l, col) < *g).unwrap_or(true);
+                                if !ok || !before {
+                                    return viol("position", format!("{}: the message cites {}:{} for '{}', which is not an earlier occurrence of that name: {:?}", what, l, col, name, first));
+                                }
+                            }
+                        }
                     }
                 }
                 Verdict::Pass
